@@ -4,6 +4,7 @@ import Proofs.RenderTrunc
 import Proofs.RenderPad
 import Proofs.RenderParses
 import Proofs.ParsePad
+import Proofs.RenderObj
 /-!
 # C08 — rendered messages respect the size limit; truncation and padding are exact
 
@@ -141,6 +142,34 @@ theorem padding_multiple (m : Message) (lim : Nat) (pt : Bool) (w : Bytes) (o : 
 -- regression (former D07 witness): `www.example. A`, `use_edns(0, pad=128)`, TSIG key `key.example.` now renders to 128 octets
 set_option maxRecDepth 100000 in
 example : (({ id := 1, flags := 256, requestPayload := 1232, pad := 128, q := [{ name := [[119,119,119],[101,120,97,109,112,108,101],[]], rdclass := 1, rdtype := 1 }], opt := some { ttl := 0, payload := 1232, options := [] }, tsig := some { name := [[107,101,121],[101,120,97,109,112,108,101],[]], alg := [[104,109,97,99,45,115,104,97,50,53,54],[]], time := 1700000000, fudge := 300, mac := List.replicate 32 0, origId := 1, error := 0, other := [] } } : Message).toWire 0 false).map List.length = .ok 128 := by
+  rfl
+
+/-- … the same through the `Renderer` *object* (`add_opt(opt, pad, opt_size, tsig_size)`, `write_header`, then
+`add_tsig` / `add_multi_tsig`, i.e. `_write_tsig`, the MAC being given), for a caller that does not go through
+`Message.to_wire`: in any renderer state (`KeysLong`: the root name is never a table key, and the header is there — both
+hold in every reachable state), whatever the compression table holds, if `add_opt` is handed the exact sizes — the OPT
+record with an empty PADDING option and the TSIG record with an *uncompressed* owner — and both calls succeed, then the
+signed message is a multiple of the block, and the TSIG leaves the compression table alone.  This rests on `was_padded`
+being set whenever a PADDING option is written, also an empty one (unpadded size already aligned): `_write_tsig` then
+writes the owner name without the table even if the key name shares a suffix with a rendered name. -/
+theorem renderer_padding_multiple (s : RState) (hk : KeysLong s.tbl) (hlen : 12 ≤ s.out.length) (o : EOpt) (t : Tsig)
+    (pad a b : Nat) (hpad : pad ≠ 0) (ha : a = 11 + (o.options.map fun p => p.2.length + 4).sum + 4)
+    (habs : isAbs t.name = true) (hb : b = (toWire t.name).length + 10 + (tsigRdataWire t).length)
+    (s1 s2 : RState) (h1 : s.addOpt o pad a b = .ok s1) (h2 : s1.writeHeader.writeTsig t = .ok s2) :
+    s2.out.length % pad = 0 ∧ s2.tbl = s1.tbl :=
+  addOpt_writeTsig_multiple s hk hlen o t pad a b hpad ha habs hb s1 s2 h1 h2
+
+def okOf : Step → Option RState
+  | .ok s => some s
+  | _ => none
+
+-- non-vacuity, on the aligned case: question `www.example.`, block 128, `opt_size` 15, `tsig_size` 84 (key `key.example.`,
+-- hmac-sha256): 29 + 15 + 84 = 128, so the PADDING option is empty (44 octets after the OPT) and the total is 128
+set_option maxRecDepth 100000 in
+example : ((okOf ((RState.init 1 256 65535 none).addQuestion [[119,119,119],[101,120,97,109,112,108,101],[]] 1 1)).bind fun s =>
+    (okOf (s.addOpt { ttl := 0, payload := 1232, options := [] } 128 15 84)).bind fun s1 =>
+    (okOf (s1.writeHeader.writeTsig { name := [[107,101,121],[101,120,97,109,112,108,101],[]], alg := [[104,109,97,99,45,115,104,97,50,53,54],[]], time := 1700000000, fudge := 300, mac := List.replicate 32 0, origId := 1, error := 0, other := [] })).map fun s2 =>
+    (s1.out.length, s2.out.length)) = some (44, 128) := by
   rfl
 
 /-- "rendering either raises the too-big error or …": when the OPT and TSIG reserves alone exceed the clamped limit
